@@ -44,7 +44,7 @@ ASSUMPTIONS = ['asyncio is a modelled primitive: tasks of L are stepped only by 
                'scenario assumptions written into the model as guards: stop() is called when all callers are done (race mode: or '
                'when the system is quiescent); the own-loop caller keeps its loop running until the others are done']
 TRUSTED = ['harness/gate.py, harness/c17_drive.py, harness/c17_mon.py (Python mirror of the monitor is cross-checked by Coq on '
-           'every case), coq/theories/Case_C17.v (monitor completeness proved in Case_C17_Complete.v; soundness not proved)']
+           'every case), coq/theories/Case_C17.v (monitor completeness and soundness proved in Case_C17_Complete.v / Case_C17_Sound.v)']
 ALLOWED_AXIOMS = []
 
 SLEEPS = [None, 0, 5, 50]
@@ -288,16 +288,20 @@ LEVEL_TEXT = ('ensure_aw / run_aw_threadsafe / loop_in_thread / _get_loop_lock a
               'Liveness in no-deadlock form: completes_own, completes_forever, completes_borrow proved unconditionally; the general '
               'statement is REFUTED by a computed witness (stranded_refuted / liveness_refuted = known finding K1, the same '
               'schedule the real code deadlocks on) and PROVED under the explicit hypothesis no_foreign_submit_to_borrowed_loop '
-              '(completes_unless_submitted_to_borrowed_loop).  Tied to /repo by running the real helpers under gated threads on '
+              '(completes_unless_submitted_to_borrowed_loop); bounded_work: at most 21*#callers+19 non-spin operations in any accepted '
+              'log (no livelock), quiescent_means_completed: where nothing but the spin is enabled every caller has completed.  Tied to /repo by running the real helpers under gated threads on '
               'all schedules (preemption-bounded) of 2 callers in 5 modes and random schedules of 3 callers; the model must accept '
               'every observed log event by event and agree on ok/deadlock (deadlock <=> nothing enabled in the model, and '
               'enabled_is_complete shows that means no operation at all); the monitor decides the property on the log, and '
-              'monitor_complete proves that it raises no safety tag on any log the model accepts.')
-LEVEL_NOTE = ('safety: full (theorems over all accepted logs); liveness: progress (no-deadlock) form only, three cases unconditional, '
+              'monitor_complete proves that it raises no safety tag on any log the model accepts, monitor_sound what its acceptance '
+              'means event by event, independently of the model.')
+LEVEL_NOTE = ('safety: full (theorems over all accepted logs); liveness: no-deadlock + bounded work (fairness of the OS scheduler and the end of '
+              'loop_in_thread\'s spin are not formalised), three cases unconditional, '
               'general statement refuted -> K1 (reported as KNOWN-FINDING, any other stuck or incorrect scenario is a VIOLATION); '
               'result_transparent / evaluated_on_target follow the model\'s asyncio assumptions (tasks are stepped by the loop\'s '
               'thread; futures deliver the awaitable\'s own outcome) which the correspondence validates on every case; no axioms')
 TECHNIQUE = ('Coq proof (two inductive invariants over all accepted event lists + case analysis for progress + vm_compute witness '
              'for K1) + differential correspondence under gated threads, validated event by event inside Coq by vm_compute')
 CLEAN_FOR_THOROUGH = ['theories/XLoop.vo', 'theories/XLoopInv.vo', 'theories/XLoopSafe.vo', 'theories/XLoopLive.vo',
-                      'theories/XLoopProg.vo', 'theories/XLoopK1.vo', 'theories/Case_C17.vo', 'theories/Case_C17_Complete.vo']
+                      'theories/XLoopProg.vo', 'theories/XLoopK1.vo', 'theories/XLoopTerm.vo', 'theories/Case_C17.vo',
+                      'theories/Case_C17_Complete.vo', 'theories/Case_C17_Sound.vo']
